@@ -1,6 +1,6 @@
 """Per-property verification plans: which TLC runs generate cases, which harness driver executes them on
 the real code and which trace/observation specification judges the recorded executions."""
-import json, os
+import json, os, subprocess
 import vcore
 
 
@@ -71,6 +71,11 @@ def c19_plan(run, replay=None):
                 cases_out="cases.ndjson", timeout=1500)
         if not q:
             run.tlc("DirSourceMC", "C19_thorough4.cfg", "design", workers=8, cases_out="cases.ndjson", timeout=1500)
+            # unbounded names: the loop invariant of Next over any sorted listing, discharged by Apalache (design level)
+            p = subprocess.run([os.path.join(vcore.VERIF, "bin", "prove-dirsource")], capture_output=True, text=True)
+            if p.returncode != 0:
+                raise vcore.Infra("Apalache did not discharge the inductive invariant of spec/DirSourceInd.tla:\n" + (p.stdout + p.stderr)[-2000:])
+            run.notes.append("Apalache: IndInv of DirSourceInd.tla is inductive and implies the C19 statement (integer names, listings of <= 6 entries)")
     s = run.harness("dirsrc", ["-in", "cases.ndjson", "-out", "trace.ndjson"] + ([] if replay else ["-longrun", 150 if q else 700]), timeout=3000)
     run.load_inputs("trace.ndjson.inputs")
     run.validate_trace("DirSourceTrace", "trace.ndjson", s["cases"], timeout=3000)
